@@ -35,6 +35,7 @@ class Builder:
         self.objs = {}
         self.events = []
         self.log = log
+        self.gone = []       # abstract names that were features once and are not any more (removed, renamed away)
 
     def _event(self, h):
         if not self.log:
@@ -71,6 +72,32 @@ class Builder:
             self.model.ctcs.append(Constraint(h['n'], AST(build_node(h['ast'], nm))))
         elif a == 'ReplaceConstraint':
             self.model.ctcs[-1].ast = AST(build_node(h['ast'], nm))
+        # ---- in-place edits through public attributes and methods
+        elif a == 'EditCard':
+            rel = self.objs[h['o']].relations[h['ri'] - 1]
+            rel.card_min, rel.card_max = h['lo'], h['hi']
+        elif a == 'EditAddChild':
+            owner = self.objs[h['o']]
+            f = Feature(nm.conc(h['n']), parent=owner)
+            self.objs[h['n']] = f
+            owner.relations[h['ri'] - 1].add_child(f)
+        elif a == 'EditRemoveKid':
+            rel = self.objs[h['o']].relations[h['ri'] - 1]
+            rel.children.remove(self.objs.pop(h['n']))
+            self.gone.append(h['n'])
+        elif a == 'EditAbstract':
+            self.objs[h['f']].is_abstract = not self.objs[h['f']].is_abstract
+        elif a == 'EditAttrVal':
+            self.objs[h['f']].get_attributes()[h['k'] - 1].set_default_value(untok(h['val']))
+        elif a == 'EditRemoveCtc':
+            self.model.ctcs.pop(h['i'] - 1)
+        elif a == 'EditCtcOp':
+            self.model.ctcs[h['i'] - 1].ast.root.data = ASTOperation[h['op']]
+        elif a == 'EditRename':
+            f = self.objs.pop(h['f'])
+            self.gone.append(h['f'])
+            f.name = nm.conc(h['n'])
+            self.objs[h['n']] = f
         else:
             raise ValueError('unknown builder action ' + a)
         self._event(h)
@@ -79,6 +106,20 @@ class Builder:
         for h in hist:
             self.step(h)
         return self.model
+
+    def event_for(self, h):
+        """Apply one (edit) step and return its event, whatever self.log says."""
+        keep, self.log = self.log, False
+        self.step(h)
+        self.log = keep
+        post, anom = project(self.model, self.naming)
+        return {'a': h['a'], 'args': {k: v for k, v in h.items() if k != 'a'}, 'out': 'value', 'post': post, 'anom': anom}
+
+
+def split_edits(hist):
+    """build calls, in-place edit calls"""
+    k = next((i for i, h in enumerate(hist) if h['a'].startswith('Edit')), len(hist))
+    return hist[:k], hist[k:]
 
 
 def build(hist, naming, log=False):
